@@ -240,6 +240,28 @@ def interleaved(fn, at, action):
         sys.settrace(old)
 
 
+def count_lines(fn):
+    """how many lines fn() executes inside the package (a dry run, to place something in the middle of a second run)"""
+    n = [0]
+
+    def local(frm, event, arg):
+        if event == 'line':
+            n[0] += 1
+        return local
+
+    def tracer(frm, event, arg):
+        return local if 'ubxlib' in frm.f_code.co_filename else None
+    old = sys.gettrace()
+    sys.settrace(tracer)
+    try:
+        fn()
+    except Exception:
+        pass
+    finally:
+        sys.settrace(old)
+    return n[0]
+
+
 # ---- per-case watchdog ----------------------------------------------------------------------------
 class CaseTimeout(BaseException):
     """raised by the watchdog; a BaseException so that no `except Exception` of a component or of the code under test swallows it"""
